@@ -109,6 +109,14 @@ func (cache *MemoryCache[K, V]) Set(key K, value V, ttlSec float64) error {
 		ttlDuration.Nanoseconds()
 
 	cache.mutex.Lock()
+	// the check above ran without the lock: two concurrent stores could both pass it
+	if cache.calculateCacheSize && cache.currentCacheSize+itemSize > cache.maxCacheSize {
+		cache.mutex.Unlock()
+		return fmt.Errorf(
+			"Cannot add item: max cache size would be exceeded."+
+				" Current cache size is %v",
+			cache.currentCacheSize)
+	}
 	cache.cache[key] = ValueWrapper[V]{value, expirationTimeNano}
 	if cache.calculateCacheSize {
 		cache.currentCacheSize += itemSize
